@@ -330,9 +330,10 @@ pub fn parse_line(line: &str) -> LineInfo {
             }
         }
 
-        if semi_ok && (c == ';' || c == '&') {
-            // `echo 'a'; echo b`, `"a"&& b`: a list operator right after the
-            // closing quote ends the quoted word, it is not part of it.
+        if semi_ok && (c == ';' || c == '&' || c == '>') {
+            // `echo 'a'; echo b`, `"a"&& b`, `echo 'a'>f`: a list operator or
+            // a redirection right after the closing quote ends the quoted
+            // word, it is not part of it.
             if sep.is_empty() && !sep_made.is_empty() {
                 result.push((sep_made.to_string(), token));
                 sep_made = String::new();
